@@ -200,8 +200,16 @@ def h3_language_oracle(rep, run3):
     n = 0
     for gid in sorted(run3.real):
         r = run3.real[gid]; meta = run3.meta[gid]
-        if r["skipped"] or r["gen"] != "ok" or "CONFLICT" in r["diag"]: continue
+        if r["skipped"] or not r["states"] or "CONFLICT" in r["diag"]: continue
         if any(kd == 2 for ru in meta["rules"] for kd, v in ru["rhs"]): continue
+        try:      # the hidden accept/reduce clash (known finding D12, judged by C11) is not a conflict-free grammar
+            ris = [tuple(int(x) for x in e.split(",")) for e in r["gi"]["RI"].split()]; eof = int(r["gi"]["GI"].split()[0]) - 2
+            clash = False
+            for st in r["states"]:
+                comp = [(a, b, c) for (a, b, c) in (tuple(int(x) for x in it.split(".")) for it in st) if b >= ris[a][2] and c == eof]
+                if any(a == len(ris) - 1 for a, b, c in comp) and len(comp) > 1: clash = True
+            if clash: continue
+        except Exception: continue
         if len({bytes(t["id"]) for t in meta["terms"]}) != len(meta["terms"]) or len(set(meta["nts"])) != len(meta["nts"]): continue   # duplicate ids: not a grammar
         rules = [(("n", ru["lhs"]), [("n", v) if kd == 0 else ("t", v) for kd, v in ru["rhs"]]) for ru in meta["rules"]]
         root = ("n", meta["root"])
